@@ -1,4 +1,5 @@
 import Verif.Conc.Guarded
+import Verif.Conc.Atomic
 import Verif.Generated.LockShape
 import Verif.Conc.WrapperTable
 /-!
@@ -6,27 +7,33 @@ import Verif.Conc.WrapperTable
 
 `guarded` is weaker than `wellLocked` (several critical sections, locks taken inside loops are fine as
 long as every access to mutable state is inside one), so a change that only splits a critical section
-breaks C06's obligation (`Table.lean`) and not this one.
+breaks C06's obligation (`Table.lean`) and not this one.  The table is `Generated.race`: the generated
+table without the accesses to members of `std::atomic` type (`Conc/Atomic.lean`), which cannot race by
+definition.
 -/
 namespace Verif.Conc
 
+/-- the generated table without the accesses to `std::atomic` members -/
+def Generated.race : List Method := raceTable Generated.table Generated.atomicComps
+
 /-- re-checked on every run against the table regenerated from /repo's current headers -/
-theorem table_guarded : ∀ m ∈ Generated.table, m.guarded Generated.table = true := by decide +kernel
+theorem table_guarded : ∀ m ∈ Generated.race, m.guarded Generated.race = true := by decide +kernel
 
 theorem table_guarded_classes :
-    ((List.range 10).all (fun c => Generated.table.any (fun m => m.cls == c))) = true := by decide +kernel
+    ((List.range 10).all (fun c => Generated.race.any (fun m => m.cls == c))) = true ∧
+    Generated.race.length = Generated.table.length := by decide +kernel
 
-theorem generated_guarded (cls : Nat) : ∀ m ∈ Generated.table, m.cls = cls → m.guarded Generated.table = true :=
+theorem generated_guarded (cls : Nat) : ∀ m ∈ Generated.race, m.cls = cls → m.guarded Generated.race = true :=
   fun m hm _ => table_guarded m hm
 
 /-- for every class: an access to mutable state is made by the lock holder -/
-theorem generated_guarded_access_under_lock (cls : Nat) {s : State} (hr : Reachable Generated.table cls s)
+theorem generated_guarded_access_under_lock (cls : Nat) {s : State} (hr : Reachable Generated.race cls s)
     {t : Tid} {c : Nat} (hnext : s.next t = some (.rd c) ∨ s.next t = some (.wr c))
-    (hc : c ∈ mutableOf Generated.table cls) : s.lock = some t :=
+    (hc : c ∈ mutableOf Generated.race cls) : s.lock = some t :=
   guarded_access_under_lock (generated_guarded cls) hr hnext hc
 
 /-- for every class: no reachable state has two threads with conflicting enabled accesses -/
-theorem generated_guarded_race_free (cls : Nat) {s : State} (hr : Reachable Generated.table cls s)
+theorem generated_guarded_race_free (cls : Nat) {s : State} (hr : Reachable Generated.race cls s)
     {t u : Tid} (htu : t ≠ u) {a b : Tok} (ha : s.next t = some a) (hb : s.next u = some b) :
     ¬ conflict a b :=
   guarded_race_free (generated_guarded cls) hr htu ha hb
@@ -34,7 +41,7 @@ theorem generated_guarded_race_free (cls : Nat) {s : State} (hr : Reachable Gene
 /-- for every class: conflicting accesses of different threads are ordered by release/acquire -/
 theorem generated_guarded_happens_before (cls : Nat) {s : State} {tr1 tr2 tr3 : List (Tid × Ev)}
     {t u : Tid} {a b : Tok}
-    (hex : Exec Generated.table cls State.init (tr1 ++ (t, .tok a) :: (tr2 ++ (u, .tok b) :: tr3)) s)
+    (hex : Exec Generated.race cls State.init (tr1 ++ (t, .tok a) :: (tr2 ++ (u, .tok b) :: tr3)) s)
     (htu : t ≠ u) (hab : conflict a b) :
     ∃ p q r, tr2 = p ++ (t, .tok .rel) :: (q ++ (u, .tok .acq) :: r) :=
   guarded_happens_before (generated_guarded cls) hex htu hab
